@@ -2,21 +2,28 @@ package main
 
 import (
 	"bufio"
+	"bytes"
 	"context"
 	"crypto/sha1"
 	"encoding/hex"
 	"encoding/json"
 	"errors"
 	"fmt"
+	"io"
 	"net"
+	"net/http"
+	"net/http/httptest"
 	"net/url"
+	"reflect"
 	"sort"
 	"strings"
 	"sync"
+	"sync/atomic"
 	"time"
 
 	"github.com/hprose/hprose-golang/v3/rpc/core"
 	"github.com/hprose/hprose-golang/v3/rpc/plugins/oneway"
+	"github.com/hprose/hprose-golang/v3/rpc/plugins/reverse"
 
 	"verif/harness/peers"
 	"verif/harness/rpcenv"
@@ -75,6 +82,7 @@ type callsEnv struct {
 	env     *rpcenv.Env
 	handled int
 	mu      sync.Mutex
+	silent  int32 // != 0: the IO handler does not record (a concurrent burst is counted by its driver)
 }
 
 // newCallsEnv: a service whose outermost IO handler records what it is handed and what it produces.
@@ -93,7 +101,8 @@ func newCallsEnv(t *tr.Writer, c callsCase) *callsEnv {
 		e.mu.Lock()
 		e.handled++
 		e.mu.Unlock()
-		if !strings.HasPrefix(string(request), "Cs2\"ok\"a1{i41;}") { // the sentinel call is not part of the traffic under test
+		silent := atomic.LoadInt32(&e.silent) != 0
+		if !silent && !strings.HasPrefix(string(request), "Cs2\"ok\"a1{i41;}") { // the sentinel call is not part of the traffic under test
 			t.Emit(tr.Rec{"ev": "handled", "n": len(request), "h": digest(request)})
 		}
 		if strings.HasPrefix(string(request), "RAW:") {
@@ -101,7 +110,9 @@ func newCallsEnv(t *tr.Writer, c callsCase) *callsEnv {
 			for i, x := range request {
 				resp[i] = x ^ 0x5A
 			}
-			t.Emit(tr.Rec{"ev": "produced", "n": len(resp), "h": digest(resp)})
+			if !silent {
+				t.Emit(tr.Rec{"ev": "produced", "n": len(resp), "h": digest(resp)})
+			}
 			return resp, nil
 		}
 		if strings.HasPrefix(string(request), "PANIC-IO") {
@@ -264,6 +275,57 @@ func c12Child(t *tr.Writer, e *callsEnv, c callsCase) {
 	cl := e.client()
 	defer cl.Abort()
 	switch c.Sc {
+	case "concurrent":
+		// many callers on one client, responses larger than the transports' small buffers, every response
+		// compared byte by byte with what the service produces for that request (request XOR 0x5A): a
+		// response buffer handed back while somebody else already writes into it shows only here
+		atomic.StoreInt32(&e.silent, 1)
+		var bad, total int64
+		var first atomic.Value
+		var wg sync.WaitGroup
+		for g := 0; g < 8; g++ {
+			wg.Add(1)
+			go func(g int) {
+				defer wg.Done()
+				rng := tr.NewRng(c.Seed*97 + int64(g))
+				var prevPayload, prevResp []byte
+				check := func(what string, payload, resp []byte, err error) {
+					atomic.AddInt64(&total, 1)
+					ok := err == nil && len(resp) == len(payload)
+					for k := 0; ok && k < len(resp); k++ {
+						ok = resp[k] == payload[k]^0x5A
+					}
+					if !ok {
+						atomic.AddInt64(&bad, 1)
+						first.CompareAndSwap(nil, fmt.Sprintf("%s: err=%v", what, err))
+					}
+				}
+				for i := 0; i < 40; i++ {
+					n := 4097 + rng.Intn(26000)
+					if c.Kind == "udp" {
+						n = 4097 + rng.Intn(20000)
+					}
+					payload := append([]byte("RAW:"), pattern("random", n-4, c.Seed*1000+int64(g*100+i))...)
+					resp, err := rawRequest(cl, payload)
+					check(fmt.Sprintf("caller %d request %d (%d bytes)", g, i, n), payload, resp, err)
+					// the bytes a call returned are the caller's: they are still the same after later calls
+					if prevResp != nil {
+						check(fmt.Sprintf("caller %d request %d, looked at again after the next call", g, i-1), prevPayload, prevResp, nil)
+					}
+					prevPayload, prevResp = payload, resp
+					if err != nil {
+						prevResp = nil
+					}
+				}
+			}(g)
+		}
+		wg.Wait()
+		atomic.StoreInt32(&e.silent, 0)
+		d := fmt.Sprintf("%d of %d responses were not what the service produced for the request", bad, total)
+		if f := first.Load(); f != nil {
+			d += "; first: " + f.(string)
+		}
+		t.Emit(tr.Rec{"ev": "sentinel", "where": "concurrent-large-responses", "ok": bad == 0, "detail": d})
 	case "honest":
 		lens := []int{4, 5, 7, 8, 11, 12, 13, 16, 255, 256, 257, 4095, 4096, 4097, 65491, 65495}
 		if c.Kind != "udp" {
@@ -568,12 +630,19 @@ func c13Child(t *tr.Writer, e *callsEnv, c callsCase) {
 		withCL := func(b []byte, cl int) string {
 			return fmt.Sprintf("POST / HTTP/1.1\r\nHost: x\r\nContent-Length: %d\r\nConnection: close\r\n\r\n%s", cl, b)
 		}
+		// the handlers treat every method but GET like POST: the limit holds for PUT and the others as well
+		as := func(method, raw string) string { return method + strings.TrimPrefix(raw, "POST") }
 		for _, r := range []req{
 			{"absent", len(body), chunked(body)},
 			{"absent", len(small), chunked(small)},
 			{"truthful", len(body), withCL(body, len(body))},
 			{"truthful", len(small), withCL(small, len(small))},
 			{"smaller", len(body), withCL(body, limit-1)},
+			{"absent", len(body), as("PUT", chunked(body))},
+			{"absent", len(small), as("PUT", chunked(small))},
+			{"truthful", len(body), as("PUT", withCL(body, len(body)))},
+			{"absent", len(body), as("PATCH", chunked(body))},
+			{"absent", len(body), as("DELETE", chunked(body))},
 		} {
 			conn, err := net.Dial("tcp", u.Host)
 			if err != nil {
@@ -592,6 +661,55 @@ func c13Child(t *tr.Writer, e *callsEnv, c callsCase) {
 				kind = "toolarge"
 			}
 			t.Emit(tr.Rec{"ev": "ret", "kind": kind, "detail": strings.TrimSpace(line)})
+		}
+	case "http2":
+		// the same service behind net/http speaking HTTP/2 (TLS): a body streamed without a declared length has
+		// no Transfer-Encoding there - it is just data frames until the stream ends
+		hs := &http.Server{}
+		if err := e.svc.Bind(hs); err != nil {
+			t.Emit(tr.Rec{"ev": "setup-failed", "err": err.Error()})
+			return
+		}
+		ts := httptest.NewUnstartedServer(hs.Handler)
+		ts.EnableHTTP2 = true
+		ts.StartTLS()
+		defer ts.Close()
+		hc := ts.Client()
+		for _, n := range []int{limit / 2, limit, limit + 1, 5 * limit, 100 * limit} {
+			if n < 4 {
+				continue
+			}
+			for _, decl := range []string{"absent", "truthful"} {
+				payload := append([]byte("RAW:"), pattern("random", n-4, c.Seed+int64(n))...)
+				var body io.Reader = bytes.NewReader(payload)
+				if decl == "absent" {
+					body = struct{ io.Reader }{body} // no length to be found: the request is streamed
+				}
+				req, err := http.NewRequest("POST", ts.URL+"/", body)
+				if err != nil {
+					continue
+				}
+				t.Emit(tr.Rec{"ev": "req", "n": n, "limit": limit, "decl": decl})
+				resp, err := hc.Do(req)
+				kind, detail := "error", ""
+				if err != nil {
+					detail = err.Error()
+				} else {
+					detail = resp.Proto + " " + resp.Status
+					io.Copy(io.Discard, resp.Body)
+					resp.Body.Close()
+					switch resp.StatusCode {
+					case 200:
+						kind = "ok"
+					case 413:
+						kind = "toolarge"
+					}
+					if resp.ProtoMajor != 2 {
+						kind, detail = "error", "not HTTP/2: "+detail
+					}
+				}
+				t.Emit(tr.Rec{"ev": "ret", "kind": kind, "detail": detail})
+			}
 		}
 	case "raw-frames":
 		u, _ := url.Parse(e.env.URL)
@@ -799,6 +917,94 @@ func c11Child(t *tr.Writer, e *callsEnv, c callsCase) {
 		}
 	case "client-faults":
 		c11ClientFaults(t, c)
+	case "reverse-faults":
+		// a function of a reverse provider panics: its caller gets an error, the provider goes on polling, the
+		// other calls of the same batch and the calls after it get their results
+		caller := reverse.NewCaller(e.svc)
+		caller.HeartBeat = 0
+		caller.Timeout = 3 * time.Second
+		pcl := e.client()
+		defer pcl.Abort()
+		prov := reverse.NewProvider(pcl, "p")
+		prov.RetryInterval = 10 * time.Millisecond
+		prov.AddFunction(func(x int) int {
+			if x < 0 {
+				panic("provider-boom")
+			}
+			return x + 1
+		}, "inc")
+		go prov.Listen()
+		defer func() { go prov.Close() }()
+		rcall := func(x int) (int, error) {
+			res, err := caller.Invoke("p", "inc", []interface{}{x}, reflect.TypeOf(0))
+			if err != nil || len(res) != 1 {
+				return 0, err
+			}
+			v, _ := res[0].(int)
+			return v, nil
+		}
+		rsentinel := func(where string) {
+			v, err := rcall(41)
+			d := ""
+			if err != nil {
+				d = err.Error()
+			}
+			t.Emit(tr.Rec{"ev": "sentinel", "where": where, "ok": err == nil && v == 42, "detail": d})
+		}
+		time.Sleep(5 * time.Millisecond)
+		rsentinel("reverse-call-before")
+		fault("function-panic-reverse-provider", func() error { _, err := rcall(-1); return err })
+		rsentinel("reverse-call-after-panic")
+		// "and nothing else": once the calls are over the provider is back in its long poll - it does not
+		// keep sending the report of the panicked call (or anything else) over and over
+		quiet := func(where string) {
+			e.mu.Lock()
+			before := e.handled
+			e.mu.Unlock()
+			time.Sleep(150 * time.Millisecond)
+			e.mu.Lock()
+			n := e.handled - before
+			e.mu.Unlock()
+			t.Emit(tr.Rec{"ev": "sentinel", "where": where, "ok": n <= 2, "detail": fmt.Sprintf("%d requests in 150 ms of silence", n)})
+		}
+		quiet("service-quiet-after-reverse-panic")
+		// a batch: the provider is busy (not polling) while three calls queue up, the panicking one first
+		busy := make(chan struct{})
+		prov.AddFunction(func() int { <-busy; return 0 }, "hold")
+		held := make(chan struct{})
+		go func() { defer close(held); caller.Invoke("p", "hold", nil, reflect.TypeOf(0)) }()
+		time.Sleep(10 * time.Millisecond)
+		type rr struct {
+			v   int
+			err error
+		}
+		outs := make([]chan rr, 3)
+		for i, x := range []int{-1, 10, 20} {
+			outs[i] = make(chan rr, 1)
+			go func(ch chan rr, x int) { v, err := rcall(x); ch <- rr{v, err} }(outs[i], x)
+			time.Sleep(2 * time.Millisecond)
+		}
+		t.Emit(tr.Rec{"ev": "fault", "what": "function-panic-reverse-batch"})
+		close(busy)
+		<-held
+		for i, want := range []int{0, 11, 21} {
+			select {
+			case r := <-outs[i]:
+				if i == 0 {
+					d := ""
+					if r.err != nil {
+						d = r.err.Error()
+					}
+					t.Emit(tr.Rec{"ev": "faultret", "what": "function-panic-reverse-batch", "kind": errKind(r.err), "detail": d})
+				} else {
+					t.Emit(tr.Rec{"ev": "sentinel", "where": fmt.Sprintf("reverse-call-%d-in-the-batch-of-the-panic", i), "ok": r.err == nil && r.v == want, "detail": fmt.Sprint(r.err)})
+				}
+			case <-time.After(5 * time.Second):
+				t.Emit(tr.Rec{"ev": "sentinel", "where": fmt.Sprintf("reverse-call-%d-in-the-batch-of-the-panic", i), "ok": false, "detail": "hang"})
+			}
+		}
+		rsentinel("reverse-call-after-batch")
+		quiet("service-quiet-after-reverse-batch")
 	}
 }
 
@@ -947,7 +1153,8 @@ func callsCases(prop, tier string, seed int64) []callsCase {
 	for _, k := range kinds {
 		switch prop {
 		case "c12":
-			out = append(out, callsCase{Prop: prop, Kind: k, Sc: "honest", Seed: seed, Thorough: th})
+			out = append(out, callsCase{Prop: prop, Kind: k, Sc: "honest", Seed: seed, Thorough: th},
+				callsCase{Prop: prop, Kind: k, Sc: "concurrent", Seed: seed, Thorough: th})
 			if framed(k) {
 				out = append(out, callsCase{Prop: prop, Kind: k, Sc: "crafted", Seed: seed, Thorough: th})
 			}
@@ -961,6 +1168,9 @@ func callsCases(prop, tier string, seed int64) []callsCase {
 			}
 			for _, l := range limits {
 				out = append(out, callsCase{Prop: prop, Kind: k, Sc: "honest", Limit: l, Seed: seed})
+				if k == "http" && l >= 8 && l <= 1000 {
+					out = append(out, callsCase{Prop: prop, Kind: k, Sc: "http2", Limit: l, Seed: seed})
+				}
 				if (k == "http" || k == "fasthttp") && l >= 8 && l <= 1000 {
 					out = append(out, callsCase{Prop: prop, Kind: k, Sc: "http-raw", Limit: l, Seed: seed})
 				}
@@ -981,6 +1191,9 @@ func callsCases(prop, tier string, seed int64) []callsCase {
 			}
 			if k == "tcp" || k == "udp" || k == "unix" {
 				out = append(out, callsCase{Prop: prop, Kind: k, Sc: "client-faults", Seed: seed})
+			}
+			if k == "tcp" || k == "mock" {
+				out = append(out, callsCase{Prop: prop, Kind: k, Sc: "reverse-faults", Seed: seed})
 			}
 		}
 	}
